@@ -131,6 +131,35 @@ def c07_1(ck, prog):
                         'under %s the matcher never looks at rule->%s' % (flag, ', '.join(missing)))
         else:
             r.ok(key, {'fields': sorted(ff & set(fields))})
+    # each string key of the rule is compared with the same-named attribute of the message
+    GETTER = {'interface': 'dbus_message_get_interface', 'member': 'dbus_message_get_member',
+              'path': 'dbus_message_get_path', 'destination': 'dbus_message_get_destination'}
+    for b, i, c in mm.calls(('strcmp', 'str_has_prefix')):
+        sides = [(k, a) for k, a in enumerate(c['args'][:2])]
+        rf = [(k, a) for k, a in sides if is_member(a, None, 'BusMatchRule')]
+        if len(rf) != 1:
+            continue
+        fld = rf[0][1]['field']
+        other = c['args'][1 - rf[0][0]]
+        key = 'matcher:%s-compared-with-message' % fld
+        if fld == 'sender':
+            if other.get('k') == 'str' and other.get('v') == 'org.freedesktop.DBus':
+                r.ok(key)
+            else:
+                r.violation(key, mm.name, SIG, c['line'], 'rule->sender is compared with %s' % estr(other))
+            continue
+        want = GETTER.get(fld)
+        if want is None:
+            continue
+        srcs = [other] if is_call(other) else [
+            rhs for b2, i2, ev in mm.events() for l, h, rhs in written_lvalues(ev)
+            if is_ref(other) and is_ref(l) and l.get('id') == other.get('id') and rhs is not None]
+        if srcs and all(is_call(x, want) for x in srcs):
+            r.ok(key)
+        else:
+            r.violation(key, mm.name, SIG, c['line'],
+                        'rule->%s is compared with %s, which is not %s(message): the key is matched against '
+                        'something other than the message\'s own %s' % (fld, estr(other), want, fld))
     # `flags` in the matcher is rule->flags minus already_matched
     okf = False
     for b, i, ev in mm.events():
